@@ -5,4 +5,4 @@ Extraction Language OCaml.
 Extraction "../ocaml/c16/model.ml" util_add util_mul util_divmod c16_unused_z
   init step run exec do_cmd do_cmds process_orphans vtree valid_snap is_shrunk flag_index cleanb dname_eqb fname_eqb
   dstep drun cmd_recover cmd_install init_recover restart_okb recorded_file
-  cmd_entries cmd_save_ondisk ext_fullb is_dummy is_partial full_snap init_recover_reg.
+  cmd_entries cmd_save_ondisk ext_fullb is_dummy is_partial full_snap init_recover_reg startup_cleans.
